@@ -115,7 +115,7 @@ func genC15(r *rand.Rand, t *Trace, thorough bool) {
 				}
 				rec := sum / float64(nq)
 				t1 := float64(top1) / float64(nq)
-				c := NewCase(1500).N(ci).N(mz).I(int64(rec*1e6+0.5)).I(int64(cd.floor*1e6+0.5)).I(int64(t1*1e6+0.5)).I(int64(cd.top1*1e6+0.5)).B(cd.exactOne)
+				c := NewCase(1500).N(ci).N(mz).I(int64(rec*1e6 + 0.5)).I(int64(cd.floor*1e6 + 0.5)).I(int64(t1*1e6 + 0.5)).I(int64(cd.top1*1e6 + 0.5)).B(cd.exactOne)
 				t.Emit(c, "recall."+cd.name+"."+string(metrics[mz]))
 			}
 			// insertion order: the last tenth is found as often as the first tenth (query = the stored vector)
